@@ -97,12 +97,15 @@ impl Monitor for C15 {
         let (src, input, kind) = self.gen(idx);
         let mut base = self.boot.clone();
         base.set_binary_input(Xbitstr::from(input)).expect("input");
-        let _ = base.set_insn_limit(Some(300_000));
+        let _ = base.set_insn_limit(Some(40_000));
         let _ = base.set_stack_limit(Some(100_000));
         let mut first: Option<(String, String)> = None;
         let mut results = Vec::new();
-        for rec in [false, true] {
+        'outer: for rec in [false, true] {
             for mode in 0..3 {
+                if !results.is_empty() && hit_limit(&results) {
+                    break 'outer;
+                }
                 let mut xs = base.clone();
                 xs.set_recording_enabled(rec);
                 let r = drive(&mut xs, &src, mode);
@@ -120,7 +123,7 @@ impl Monitor for C15 {
                 results.push((rec, mode, res, o));
             }
         }
-        if results.iter().any(|r| r.2.contains("insn limit") || r.2.contains("step guard")) {
+        if hit_limit(&results) {
             obs.skipped += 1;
             obs.count("skipped:limit");
             return;
@@ -167,6 +170,10 @@ impl Monitor for C15 {
         let (src, input, kind) = self.gen(idx);
         format!("[{}] input={:02x?}\n{}", kind, input, src)
     }
+}
+
+fn hit_limit(results: &[(bool, usize, String, String)]) -> bool {
+    results.iter().any(|r| r.2.contains("insn limit") || r.2.contains("step guard"))
 }
 
 pub fn truncate(s: &str, n: usize) -> String {
